@@ -25,12 +25,25 @@
   OBLIGATION c23_src_json_keys
   OBLIGATION c23_src_get_keys
   OBLIGATION c23_src_batch_shape
+  The byte layer: UTF-8 at the transport boundary is strict, and identical for every transport
+  OBLIGATION c23_utf8_roundtrip
+  OBLIGATION c23_utf8_strict
+  OBLIGATION c23_bytes_transport_agree
+  OBLIGATION c23_bytes_lift
+  OBLIGATION c23_bytes_same
+  OBLIGATION c23_bytes_malformed_rejected
+  OBLIGATION c23_bytes_body_refines_spec
+  OBLIGATION c23_bytes_get_refines_spec
+  OBLIGATION c23_bytes_multipart_refines_spec
+  OBLIGATION c23_bytes_violated_by_text_reading
+  OBLIGATION c23_get_violated_by_lossy_utf8
   Witnesses of the defect toggles
   OBLIGATION c23_get_violated_by_snake_case
   OBLIGATION c23_empty_batch_violated_by_array_request
   OBLIGATION c23_multipart_violated_by_panic
 -/
 import AGV.Lemmas.Http
+import AGV.Lemmas.HttpBytes
 import AGV.Gen.RequestKeys
 
 namespace AGV.Props.C23
@@ -376,6 +389,266 @@ theorem c23_src_batch_shape :
     AGV.Gen.RequestKeys.batchUntagged = true ∧
     AGV.Gen.RequestKeys.batchVariants = ["Single".toList, "Batch".toList] ∧
     AGV.Gen.RequestKeys.batchNonEmptyRule = true := by decide
+
+-- ------------------------------------------------------------------ the byte layer
+
+section Bytes
+open AGV.Spec.Http (Bytes BPart utf8Decode utf8Encode)
+open AGV.Lemmas.HttpBytes
+
+/-- every sequence of scalar values survives the byte layer: encoding then strict decoding is the
+    identity, so the text-level theorems above lose nothing at the transport boundary. -/
+theorem c23_utf8_roundtrip (cs : List Char) : utf8Decode (utf8Encode cs) = some cs :=
+  utf8Decode_encode cs
+
+/-- strictness: the decoder accepts a byte list exactly when it IS the UTF-8 form of a text, and
+    then returns that text — no overlong form, surrogate, value above U+10FFFF, stray or missing
+    continuation byte is accepted, nothing is repaired, no byte order mark is dropped. -/
+theorem c23_utf8_strict (bs : Bytes) (cs : List Char) : utf8Decode bs = some cs ↔ bs = utf8Encode cs :=
+  utf8Decode_iff bs cs
+
+/-- THE BYTE-LEVEL PROPERTY: on EVERY byte list the `operations` part of a multipart body (any
+    non-multipart part content type — its charset parameter is not an input —, `map` part `{}`
+    before or behind, other fields in between) decodes to exactly what the same bytes decode to
+    as a JSON body: the same request(s), or the same refusal. -/
+theorem c23_bytes_transport_agree (D : Defects) (K : Keys) (parse : Str → Option J) (ct : Option Str)
+    (hct : AGV.Spec.Http.isMultipartType ct = false) (bs mb : Bytes)
+    (hmap : ∃ t, utf8Decode mb = some t ∧ parse t = some (.obj [])) :
+    decodeMultipartBytes D K parse [.ops ct bs, .map mb] = decodeBodyBytes D K parse bs ∧
+    decodeMultipartBytes D K parse [.map mb, .ops ct bs] = decodeBodyBytes D K parse bs ∧
+    decodeMultipartBytes D K parse [.other, .ops ct bs, .other, .map mb] = decodeBodyBytes D K parse bs := by
+  obtain ⟨t, h1, h2⟩ := hmap
+  refine ⟨?_, ?_, ?_⟩ <;>
+  · simp only [decodeMultipartBytes, decodeMultipartBytesAux, hct, Bool.false_eq_true, if_false, h1, h2,
+      filesMap, traverse]
+    cases decodeBodyBytes D K parse bs <;> simp [decodeMultipartBytesAux, h1, h2, filesMap, traverse]
+
+/-- the byte layer is transparent on encoded text: the bytes of a text decode like the text. -/
+theorem c23_bytes_lift (D : Defects) (K : Keys) (parse : Str → Option J) (t : Str) :
+    decodeBodyBytes D K parse (utf8Encode t) =
+      (match parse t with | none => .error .invalidRequest | some j => decodeBatch D K j) := by
+  simp only [decodeBodyBytes, c23_utf8_roundtrip]
+  cases parse t <;> rfl
+
+theorem getPair_eq_spec : getPair {} = AGV.Spec.Http.utf8Pair := by
+  funext p
+  simp only [getPair, AGV.Spec.Http.utf8Pair, getText, Bool.false_eq_true, if_false]
+  cases utf8Decode p.1 <;> cases utf8Decode p.2 <;> rfl
+
+theorem traverse_getPair_encode (ps : List (Str × Str)) :
+    traverse (getPair {}) (ps.map (fun p => (utf8Encode p.1, utf8Encode p.2))) = some ps := by
+  induction ps with
+  | nil => rfl
+  | cons p ps ih =>
+    simp only [List.map_cons, traverse, getPair_eq_spec, AGV.Spec.Http.utf8Pair, c23_utf8_roundtrip] at ih ⊢
+    rw [ih]
+
+/-- THE PROPERTY, from bytes (repaired decoders): the UTF-8 bytes of the GET parameters, of the
+    JSON body, of a batch and of the `operations` part sent for a request all decode to that
+    request, for every request text (arbitrary scalar values) and every JSON printer/parser pair. -/
+theorem c23_bytes_same (parse : Str → Option J) (print : J → Str) (hp : ∀ j, parse (print j) = some j) (r : Req) :
+    decodeGetBytes {} (getKeys {}) parse (encodeGetBytes jsonKeys print r) = .ok r ∧
+    decodeBodyBytes {} jsonKeys parse (utf8Encode (print (encodeJson jsonKeys r))) = .ok (.single r) ∧
+    decodeBodyBytes {} jsonKeys parse (utf8Encode (print (encodeBatch jsonKeys [r]))) = .ok (.batch [r]) ∧
+    decodeMultipartBytes {} jsonKeys parse
+      [.ops none (utf8Encode (print (encodeJson jsonKeys r))), .map (utf8Encode (print (.obj [])))] = .ok (.single r) := by
+  obtain ⟨h1, h2, h3, _⟩ := c23_same parse print hp r
+  have hb : decodeBodyBytes {} jsonKeys parse (utf8Encode (print (encodeJson jsonKeys r))) = .ok (.single r) := by
+    rw [c23_bytes_lift, hp]; exact h2
+  refine ⟨?_, hb, ?_, ?_⟩
+  · simp only [decodeGetBytes, encodeGetBytes]
+    rw [traverse_getPair_encode]
+    exact h1
+  · rw [c23_bytes_lift, hp]; exact h3
+  · rw [(c23_bytes_transport_agree {} jsonKeys parse none rfl _ _
+      ⟨print (.obj []), c23_utf8_roundtrip _, hp _⟩).1]
+    exact hb
+
+/-- malformed encodings are rejected with a request error by every transport: bytes that are not
+    UTF-8 as a body / batch / `operations` part, as the `map` part, or as a GET key or value. -/
+theorem c23_bytes_malformed_rejected (K : Keys) (parse : Str → Option J) (bs : Bytes) (h : utf8Decode bs = none) :
+    decodeBodyBytes {} K parse bs = .error .invalidRequest ∧
+    (∀ ct rest, AGV.Spec.Http.isMultipartType ct = false →
+      decodeMultipartBytes {} K parse (.ops ct bs :: rest) = .error .invalidRequest) ∧
+    (∀ rest, decodeMultipartBytes {} K parse (.map bs :: rest) = .error .invalidFilesMap) ∧
+    (∀ pre post other, decodeGetBytes {} K parse (pre ++ (bs, other) :: post) = .error .queryString) ∧
+    (∀ pre post other, decodeGetBytes {} K parse (pre ++ (other, bs) :: post) = .error .queryString) := by
+  have hb : decodeBodyBytes {} K parse bs = .error .invalidRequest := by simp [decodeBodyBytes, h]
+  have hg : ∀ (pre post : List (Bytes × Bytes)) (p : Bytes × Bytes), getPair {} p = none →
+      decodeGetBytes {} K parse (pre ++ p :: post) = .error .queryString := by
+    intro pre post p hp
+    have : traverse (getPair {}) (pre ++ p :: post) = none := by
+      induction pre with
+      | nil => simp only [List.nil_append, traverse, hp]
+      | cons a as ih =>
+        simp only [List.cons_append, traverse, ih]
+        split <;> rfl
+    simp only [decodeGetBytes, this]
+  refine ⟨hb, ?_, ?_, ?_, ?_⟩
+  · intro ct rest hct
+    simp [decodeMultipartBytes, decodeMultipartBytesAux, hct, hb]
+  · intro rest
+    simp [decodeMultipartBytes, decodeMultipartBytesAux, h]
+  · intro pre post other
+    apply hg
+    simp [getPair, getText, h]
+  · intro pre post other
+    apply hg
+    simp only [getPair, getText, Bool.false_eq_true, if_false, h]
+    split <;> simp_all
+
+/-- on EVERY byte list the body decoder is the reference one -/
+theorem c23_bytes_body_refines_spec (parse : Str → Option J) (bs : Bytes) :
+    decodeBodyBytes {} jsonKeys parse bs = AGV.Spec.Http.decodeBodyBytes parse bs := by
+  simp only [decodeBodyBytes, AGV.Spec.Http.decodeBodyBytes, c23_body_refines_spec]
+  cases utf8Decode bs with
+  | none => rfl
+  | some t => cases parse t <;> rfl
+
+/-- on EVERY list of percent-decoded byte pairs the repaired GET decoder is the reference one -/
+theorem c23_bytes_get_refines_spec (parse : Str → Option J) (ps : List (Bytes × Bytes)) :
+    decodeGetBytes {} (getKeys {}) parse ps = AGV.Spec.Http.decodeGetBytes parse ps := by
+  simp only [decodeGetBytes, AGV.Spec.Http.decodeGetBytes, traverse_eq_allSome, c23_get_refines_spec, getPair_eq_spec]
+  cases AGV.Spec.Http.allSome AGV.Spec.Http.utf8Pair ps <;> rfl
+
+theorem filesMap_eq_spec (j : J) : filesMap j = AGV.Spec.Http.filesMapOf j := by
+  cases j <;> try rfl
+  rename_i kvs
+  simp only [filesMap, AGV.Spec.Http.filesMapOf, traverse_eq_allSome]
+  congr 1
+  funext p
+  cases p.2 <;> try rfl
+  rename_i xs
+  simp only []
+  cases AGV.Spec.Http.allSome (fun (x : J) => match x with | .str s => some s | _ => none) xs <;> rfl
+
+theorem decodeMultipartBytesAux_eq_spec (parse : Str → Option J) (parts : List BPart) (req : Option BatchReq)
+    (m : Option (List (Str × List Str))) :
+    decodeMultipartBytesAux {} jsonKeys parse parts req m = AGV.Spec.Http.decodeMultipartBytesAux parse parts req m := by
+  induction parts generalizing req m with
+  | nil => cases req <;> cases m <;> rfl
+  | cons p ps ih =>
+    cases p with
+    | ops ct bs =>
+      simp only [decodeMultipartBytesAux, AGV.Spec.Http.decodeMultipartBytesAux, c23_bytes_body_refines_spec]
+      cases AGV.Spec.Http.isMultipartType ct
+      · simp only [Bool.false_eq_true, if_false]
+        cases AGV.Spec.Http.decodeBodyBytes parse bs with
+        | error e => rfl
+        | ok r => exact ih _ _
+      · rfl
+    | map bs =>
+      simp only [decodeMultipartBytesAux, AGV.Spec.Http.decodeMultipartBytesAux, filesMap_eq_spec]
+      cases utf8Decode bs with
+      | none => rfl
+      | some t =>
+        cases hp : parse t with
+        | none => simp [hp]
+        | some j =>
+          cases hf : AGV.Spec.Http.filesMapOf j with
+          | none => simp [hp, hf]
+          | some mm => simp [hp, hf]; exact ih _ _
+    | other => simp only [decodeMultipartBytesAux, AGV.Spec.Http.decodeMultipartBytesAux]; exact ih _ _
+
+/-- on EVERY sequence of byte parts the multipart decoder is the reference one -/
+theorem c23_bytes_multipart_refines_spec (parse : Str → Option J) (parts : List BPart) :
+    decodeMultipartBytes {} jsonKeys parse parts = AGV.Spec.Http.decodeMultipartBytes parse parts :=
+  decodeMultipartBytesAux_eq_spec parse parts none none
+
+/-- the request text `{"query":"?"}` with one arbitrary character `?` in the query (characters
+    given by their code points) -/
+def witnessText (c : Char) : Str :=
+  [0x7B, 0x22, 0x71, 0x75, 0x65, 0x72, 0x79, 0x22, 0x3A, 0x22].map Char.ofNat ++ [c] ++ [0x22, 0x7D].map Char.ofNat
+
+/-- the text `{}` -/
+def emptyObjText : Str := [0x7B, 0x7D].map Char.ofNat
+
+/-- a JSON parser that knows the texts of the witnesses: `{"query":"�"}` and `{}` -/
+def witnessParse (t : Str) : Option J :=
+  if t = witnessText (Char.ofNat 0xFFFD) then some (.obj [(AGV.Spec.Http.kQuery, .str [Char.ofNat 0xFFFD])])
+  else if t = emptyObjText then some (.obj [])
+  else none
+
+/-- the bytes `{"query":"` FF `"}`: not UTF-8 -/
+def witnessBytes : Bytes :=
+  [0x7B, 0x22, 0x71, 0x75, 0x65, 0x72, 0x79, 0x22, 0x3A, 0x22, 0xFF, 0x22, 0x7D]
+
+theorem decodeBatch_query_only (s : Str) :
+    decodeBatch {} jsonKeys (.obj [(AGV.Spec.Http.kQuery, .str s)]) = .ok (.single ⟨s, none, [], []⟩) := by
+  simp [decodeBatch, decodeReq, decodeReqObj, hasDup, count, lookup, jsonKeys, fieldQuery, fieldOperationName,
+    fieldMembers, AGV.Spec.Http.kQuery, AGV.Spec.Http.kOperationName, AGV.Spec.Http.kVariables,
+    AGV.Spec.Http.kExtensions]
+
+theorem decodeBatch_empty_obj : decodeBatch {} jsonKeys (.obj []) = .ok (.single ⟨[], none, [], []⟩) := by
+  simp [decodeBatch, decodeReq, decodeReqObj, hasDup, count, lookup, fieldQuery, fieldOperationName, fieldMembers]
+
+/-- what the byte-level agreement excludes (the variant reading the `operations` part as text,
+    `Field::text()`): it ACCEPTS bytes that are not UTF-8 — as a request whose query is U+FFFD —
+    and a document behind a byte order mark, both of which the body decoder refuses. -/
+theorem c23_bytes_violated_by_text_reading :
+    decodeBodyBytes {} jsonKeys witnessParse witnessBytes = .error .invalidRequest ∧
+    decodeBodyBytesAsText {} jsonKeys witnessParse witnessBytes
+      = .ok (.single ⟨[Char.ofNat 0xFFFD], none, [], []⟩) ∧
+    decodeBodyBytes {} jsonKeys witnessParse [0xEF, 0xBB, 0xBF, 0x7B, 0x7D] = .error .invalidRequest ∧
+    decodeBodyBytesAsText {} jsonKeys witnessParse [0xEF, 0xBB, 0xBF, 0x7B, 0x7D]
+      = .ok (.single ⟨[], none, [], []⟩) := by
+  have w1 : utf8DecodeLossy witnessBytes = witnessText (Char.ofNat 0xFFFD) := by
+    simp [witnessBytes, utf8DecodeLossy, utf8DecodeLossyN, AGV.Spec.Http.utf8Step, witnessText]
+  have w2 : witnessParse (witnessText (Char.ofNat 0xFFFD))
+      = some (.obj [(AGV.Spec.Http.kQuery, .str [Char.ofNat 0xFFFD])]) := by
+    simp [witnessParse]
+  have w3 : utf8Decode witnessBytes = none := by
+    simp [witnessBytes, utf8Decode, AGV.Spec.Http.utf8DecodeN, AGV.Spec.Http.utf8Step]
+  have w4 : utf8Decode [0xEF, 0xBB, 0xBF, 0x7B, 0x7D] = some (Char.ofNat 0xFEFF :: emptyObjText) := by
+    simp [utf8Decode, AGV.Spec.Http.utf8DecodeN, AGV.Spec.Http.utf8Step, AGV.Spec.Http.inRange, emptyObjText]
+  have w5 : witnessParse (Char.ofNat 0xFEFF :: emptyObjText) = none := by
+    simp [witnessParse, witnessText, emptyObjText]
+  have w6 : utf8DecodeLossy [0x7B, 0x7D] = emptyObjText := by
+    simp [utf8DecodeLossy, utf8DecodeLossyN, AGV.Spec.Http.utf8Step, emptyObjText]
+  have w7 : witnessParse emptyObjText = some (.obj []) := by
+    simp [witnessParse, witnessText, emptyObjText]
+  refine ⟨?_, ?_, ?_, ?_⟩
+  · simp only [decodeBodyBytes, w3]
+  · have : decodeBodyBytesAsText {} jsonKeys witnessParse witnessBytes
+        = (match witnessParse (utf8DecodeLossy witnessBytes) with
+           | none => .error .invalidRequest
+           | some j => decodeBatch {} jsonKeys j) := rfl
+    rw [this, w1, w2]
+    exact decodeBatch_query_only _
+  · simp only [decodeBodyBytes, w4, w5]
+  · have : decodeBodyBytesAsText {} jsonKeys witnessParse [0xEF, 0xBB, 0xBF, 0x7B, 0x7D]
+        = (match witnessParse (utf8DecodeLossy [0x7B, 0x7D]) with
+           | none => .error .invalidRequest
+           | some j => decodeBatch {} jsonKeys j) := rfl
+    rw [this, w6, w7]
+    exact decodeBatch_empty_obj
+
+/-- pinned tree: the GET decoder repairs instead of refusing — `query=%FF` decodes to the query
+    U+FFFD, while the reference semantics (and the JSON body with the same byte) refuses. -/
+theorem c23_get_violated_by_lossy_utf8 :
+    decodeGetBytes { getLossyUtf8 := true } (getKeys { getLossyUtf8 := true }) witnessParse
+        [(utf8Encode AGV.Spec.Http.kQuery, [0xFF])]
+      = .ok ⟨[Char.ofNat 0xFFFD], none, [], []⟩ ∧
+    AGV.Spec.Http.decodeGetBytes witnessParse [(utf8Encode AGV.Spec.Http.kQuery, [0xFF])] = .error .queryString ∧
+    decodeGetBytes {} (getKeys {}) witnessParse [(utf8Encode AGV.Spec.Http.kQuery, [0xFF])] = .error .queryString := by
+  have l1 : utf8DecodeLossy [0xFF] = [Char.ofNat 0xFFFD] := by
+    simp [utf8DecodeLossy, utf8DecodeLossyN, AGV.Spec.Http.utf8Step]
+  have l2 : utf8Decode [0xFF] = none := by
+    simp [utf8Decode, AGV.Spec.Http.utf8DecodeN, AGV.Spec.Http.utf8Step]
+  have l3 : utf8DecodeLossy (utf8Encode AGV.Spec.Http.kQuery) = AGV.Spec.Http.kQuery := by
+    simp [utf8DecodeLossy, utf8DecodeLossyN, AGV.Spec.Http.utf8Step, utf8Encode, AGV.Spec.Http.utf8EncodeN,
+      AGV.Spec.Http.utf8EncodeCharN, AGV.Spec.Http.kQuery]
+  have hspec : AGV.Spec.Http.decodeGetBytes witnessParse [(utf8Encode AGV.Spec.Http.kQuery, [0xFF])]
+      = .error .queryString := by
+    simp [AGV.Spec.Http.decodeGetBytes, AGV.Spec.Http.allSome, AGV.Spec.Http.utf8Pair, l2]
+  refine ⟨?_, hspec, ?_⟩
+  · simp only [decodeGetBytes, traverse, getPair, getText, l1, l3, if_true]
+    simp [decodeGet, getKeys, jsonKeys, hasDup, count, lookup,
+      getMembers, AGV.Spec.Http.kQuery, AGV.Spec.Http.kOperationName, AGV.Spec.Http.kVariables,
+      AGV.Spec.Http.kExtensions]
+  · rw [c23_bytes_get_refines_spec]; exact hspec
+
+end Bytes
 
 -- ------------------------------------------------------------------ witnesses of the defect toggles
 
